@@ -61,7 +61,21 @@ def check(run, tier):
     run.tlaps("SelectLemmas")
     r = rng("C12")
     run_calls(run, cases(tier, r), batch=6000, nontrivial=lambda rec: len(rec["sel"]) > 0)
+    _command_part(run, tier)
     run.extra["exhaustive_up_to_wells"] = 10 if q else 14
+
+
+def _command_part(run, tier):
+    """The selection string inside B;Aspirate / B;Dispense commands: geometry of the addressed labware, decodes to the named wells."""
+    from ..common import rng
+    from ..drivers import evo
+    from ._twin import run_programs
+
+    r = rng("C12-cmd")
+    progs = evo.targeted_programs()
+    for i in range(60 if tier == "quick" else 1500):
+        progs.append(evo.evo_program(r, f"C12/e{i}", r.randint(2, 6), kinds=["canonical", "canonical", "permuted"]))
+    run_programs(run, progs)
 
 
 def replay(run, rp):
